@@ -17,7 +17,7 @@ from __future__ import annotations
 
 import ast
 import re
-from typing import Any, Dict, List, Optional, Set, Tuple
+from typing import Any, Dict, List, Optional, Sequence, Set, Tuple
 
 from engine.fold import Folder
 from engine.mathobj import NOTIMPL, Dispatcher, Obj, ang_input, mat_input, vec_input
@@ -45,6 +45,101 @@ def double_mod(n: ast.AST) -> bool:
 
 def single_mod(n: ast.AST) -> bool:
     return isinstance(n, ast.BinOp) and isinstance(n.op, ast.Mod) and is_360(n.right) and not double_mod(n)
+
+
+def local_store_verdicts(fn: ast.AST) -> Dict[int, Tuple[bool, str]]:
+    """For every `<obj>.<angle field> = <local name>`: is every definition of the local that reaches the store normalised?
+    Forward analysis over the structured statements; a local is N(ormalised) after `x = e % 360 % 360`, a literal in [0, 360) or a copy of
+    an N local; after `if <x escapes [0, 360)>: x = x % 360 % 360` the fall-through value is N as well - provided the escape test has the
+    half-open form (`x < 0 or x >= 360`, or min()/max() over several locals); a test with `> 360` lets exactly 360.0 through."""
+    verdicts: Dict[int, Tuple[bool, str]] = {}
+    N = 'N'
+
+    def form_of(e: ast.AST, env: Dict[str, Set[str]]) -> str:
+        if double_mod(e):
+            return N
+        if isinstance(e, ast.Constant) and isinstance(e.value, (int, float)) and not isinstance(e.value, bool) and 0 <= e.value < 360:
+            return N
+        if isinstance(e, ast.Name) and e.id in env:
+            fs = env[e.id]
+            return N if fs == {N} else sorted(fs - {N})[0]
+        if single_mod(e):
+            return 'a single `% 360` (a tiny negative value wraps to exactly 360.0)'
+        return f'`{ast.unparse(e)[:50]}` is not normalised'
+
+    def escape_test(t: ast.AST) -> Optional[Tuple[Set[str], bool]]:
+        """(locals tested, upper bound is inclusive i.e. `>= 360`) for `lo < 0 or hi >= 360` shaped tests"""
+        if not (isinstance(t, ast.BoolOp) and isinstance(t.op, ast.Or) and len(t.values) == 2):
+            return None
+        names: Set[str] = set()
+        lower_ok = upper_ok = False
+        inclusive = False
+        for c in t.values:
+            if not (isinstance(c, ast.Compare) and len(c.ops) == 1 and isinstance(c.comparators[0], ast.Constant)):
+                return None
+            lhs, op, k = c.left, c.ops[0], c.comparators[0].value
+            if isinstance(lhs, ast.Name):
+                vs = {lhs.id}
+                agg = None
+            elif isinstance(lhs, ast.Call) and dotted(lhs.func) in ('min', 'max') and all(isinstance(a, ast.Name) for a in lhs.args):
+                vs = {a.id for a in lhs.args}
+                agg = dotted(lhs.func)
+            else:
+                return None
+            if isinstance(op, ast.Lt) and k == 0 and agg in (None, 'min'):
+                lower_ok = True
+                names |= vs
+            elif isinstance(op, (ast.Gt, ast.GtE)) and k == 360 and agg in (None, 'max'):
+                upper_ok = True
+                inclusive = isinstance(op, ast.GtE)
+                names |= vs
+            else:
+                return None
+        return (names, inclusive) if lower_ok and upper_ok else None
+
+    def block(stmts: Sequence[ast.stmt], env: Dict[str, Set[str]]) -> Dict[str, Set[str]]:
+        for st in stmts:
+            if isinstance(st, (ast.Assign, ast.AnnAssign)) and st.value is not None:
+                tg = st.targets if isinstance(st, ast.Assign) else [st.target]
+                for t in tg:
+                    if isinstance(t, ast.Name):
+                        env[t.id] = {form_of(st.value, env)}
+                    elif isinstance(t, (ast.Tuple, ast.List)):
+                        vals = st.value.elts if isinstance(st.value, (ast.Tuple, ast.List)) and len(st.value.elts) == len(t.elts) else [None] * len(t.elts)
+                        for e, v in zip(t.elts, vals):
+                            if isinstance(e, ast.Name):
+                                env[e.id] = {form_of(v, env)} if v is not None else {'unpacked from an unknown value'}
+                    elif isinstance(t, ast.Attribute) and t.attr in ANGLE_FIELDS and isinstance(st.value, ast.Name) and st.value.id in env:
+                        fs = env[st.value.id]
+                        verdicts[id(st)] = (fs == {N}, '' if fs == {N} else f'the local `{st.value.id}` can hold a value that is ' + sorted(fs - {N})[0])
+            elif isinstance(st, ast.AugAssign) and isinstance(st.target, ast.Name):
+                env[st.target.id] = {'changed by an augmented assignment'}
+            elif isinstance(st, ast.If):
+                esc = escape_test(st.test)
+                e1 = block(st.body, {k: set(v) for k, v in env.items()})
+                e2 = {k: set(v) for k, v in env.items()}
+                if esc is not None and not st.orelse:
+                    names, inclusive = esc
+                    for nm in names:
+                        if nm in e2 and e2[nm] != {N}:
+                            e2[nm] = {N} if inclusive else {'let through by the range test `' + ast.unparse(st.test)[:70] + '` when it is exactly 360.0 (the bound must be `>= 360`)'}
+                e2 = block(st.orelse, e2)
+                env = {k: e1.get(k, set()) | e2.get(k, set()) for k in set(e1) | set(e2)}
+            elif isinstance(st, (ast.For, ast.While)):
+                for _ in range(2):
+                    e1 = block(st.body, {k: set(v) for k, v in env.items()})
+                    env = {k: env.get(k, set()) | e1.get(k, set()) for k in set(env) | set(e1)}
+            elif isinstance(st, ast.Try):
+                env = block(st.body, env)
+                for h in st.handlers:
+                    e1 = block(h.body, {k: set(v) for k, v in env.items()})
+                    env = {k: env.get(k, set()) | e1.get(k, set()) for k in set(env) | set(e1)}
+                env = block(st.finalbody, block(st.orelse, env))
+            elif isinstance(st, ast.With):
+                env = block(st.body, env)
+        return env
+    block(list(getattr(fn, 'body', [])), {})
+    return verdicts
 
 
 def expand_templates(prog: Program, mod: Any, clsname: str) -> Dict[str, ast.AST]:
@@ -141,7 +236,7 @@ def run(ctx: Any, prog: Program) -> None:
     # ---- G1 (Python) ---------------------------------------------------------------------------------
     for qual, fns in mt.all_funcs().items():
         for fn in fns:
-            local_norm: Set[str] = set()
+            local_verdict = local_store_verdicts(fn)
             for n in walk_no_nested(fn):
                 pairs: List[Tuple[ast.AST, Optional[ast.AST]]] = []
                 if isinstance(n, ast.Assign):
@@ -173,6 +268,10 @@ def run(ctx: Any, prog: Program) -> None:
                         ok = True   # same-field copy from another angle (itself covered by this rule)
                     elif single_mod(v):
                         why = 'single `% 360`: a tiny negative value wraps to exactly 360.0'
+                    elif isinstance(v, ast.Name) and id(n) in local_verdict:
+                        ok, why = local_verdict[id(n)]
+                    elif isinstance(v, ast.Call) and dotted(v.func) == 'round':
+                        why = 'round() after normalisation: a value in [359.9999995, 360) becomes exactly 360.0'
                     else:
                         why = 'not a recognised normalised form'
                     ctx.check('C05.G1', ok, mt, n, f'store to {ast.unparse(t)}: {why or "normalised"}', func=qual,
@@ -689,6 +788,9 @@ def check_format_float(ctx: Any, mod: Any, ff: Any) -> None:
 
 
 MUTANTS = [
+    {'id': 'imul_range_guard_inclusive', 'file': 'math.py', 'find': "            self._pitch = self._pitch * other % 360.0 % 360.0\n            self._yaw = self._yaw * other % 360.0 % 360.0\n            self._roll = self._roll * other % 360.0 % 360.0\n            return self", 'replace': "            pitch = self._pitch * other\n            yaw = self._yaw * other\n            roll = self._roll * other\n            if min(pitch, yaw, roll) < 0.0 or max(pitch, yaw, roll) >= 360.0:\n                pitch = pitch % 360.0 % 360.0\n                yaw = yaw % 360.0 % 360.0\n                roll = roll % 360.0 % 360.0\n            self._pitch = pitch\n            self._yaw = yaw\n            self._roll = roll\n            return self", 'expect': None},
+    {'id': 'imul_normalised_through_locals', 'file': 'math.py', 'find': "            self._pitch = self._pitch * other % 360.0 % 360.0\n            self._yaw = self._yaw * other % 360.0 % 360.0\n            self._roll = self._roll * other % 360.0 % 360.0\n            return self", 'replace': "            pitch = self._pitch * other % 360.0 % 360.0\n            yaw = self._yaw * other % 360.0 % 360.0\n            roll = self._roll * other % 360.0 % 360.0\n            self._pitch = pitch\n            self._yaw = yaw\n            self._roll = roll\n            return self", 'expect': None},
+    {'id': 'imul_normalised_only_when_out_of_range', 'file': 'math.py', 'find': "            self._pitch = self._pitch * other % 360.0 % 360.0\n            self._yaw = self._yaw * other % 360.0 % 360.0\n            self._roll = self._roll * other % 360.0 % 360.0\n            return self", 'replace': "            pitch = self._pitch * other\n            yaw = self._yaw * other\n            roll = self._roll * other\n            if min(pitch, yaw, roll) < 0.0 or max(pitch, yaw, roll) > 360.0:\n                pitch = pitch % 360.0 % 360.0\n                yaw = yaw % 360.0 % 360.0\n                roll = roll % 360.0 % 360.0\n            self._pitch = pitch\n            self._yaw = yaw\n            self._roll = roll\n            return self", 'expect': 'C05.G1'},
     {'id': 'format_float_wide_shortcut', 'file': 'math.py', 'find': "    result = f'{x:.{places}f}'\n", 'replace': "    if abs(x - round(x)) < 10.0 ** -places:\n        return str(round(x))\n    result = f'{x:.{places}f}'\n", 'expect': 'C05.G4'},
     {'id': 'format_float_exact_shortcut', 'file': 'math.py', 'find': "    result = f'{x:.{places}f}'\n", 'replace': "    if x == round(x) and abs(x) < 1e15:\n        return str(round(x))\n    result = f'{x:.{places}f}'\n", 'expect': None, 'note': 'negative control: exact whole-number fast path'},
     {'id': 'setter_single_mod', 'file': 'math.py', 'find': "        self._yaw = float(yaw) % 360 % 360\n\n", 'replace': "        self._yaw = float(yaw) % 360\n\n", 'expect': 'C05.G1'},
